@@ -78,7 +78,14 @@ def check_circuit(params):
     except Exception as e:  # noqa
         bad("raises", "eval(mixed=True) raised %s: %s" % (type(e).__name__, str(e)[:100]))
         return out
-    arr = np.asarray(got.array, dtype=complex)
+    arr = np.array(got.array, dtype=complex)
+    # the evaluation belongs to the caller: overwrite it in place, the circuit must evaluate the same again
+    if isinstance(got.array, np.ndarray) and got.array.flags.writeable and got.array.size:
+        got.array[...] = 7
+        again = np.asarray(build.build(recipe).eval(mixed=True).array, dtype=complex)
+        if again.shape != arr.shape or not qref.close(again, arr):
+            bad("result-aliased", "after the array returned by eval(mixed=True) was overwritten in place the same "
+                "circuit evaluates differently: the result shares memory with a box")
     if arr.size != A.size:
         bad("shape", "eval(mixed=True).array has %d entries, the circuit type %s -> %s needs %d"
             % (arr.size, d.dom, d.cod, A.size))
